@@ -86,6 +86,11 @@ claim('C20', 'model_checking', 'explicit-state BFS per configuration over next/t
       'Trusted: datastore and DA doubles; a limit smaller than one transaction may leave the sequencer stuck (not a violation of the stated clauses); the (nil,nil) answer is counted, not judged.',
       'DESIGN.md section 5 C20', 'bfs')
 
+claim('C13', 'exploration', 'stateless exploration of interleavings of all ten real loops of a sequencer node and a full node under a cooperative scheduler in one synctest bubble, delay-bounded, with a stop at every 100 ms boundary',
+      'A sequencer node (AggregationLoop, Reaper, HeaderSubmissionLoop, DataSubmissionLoop, DAIncluderLoop) and a full node (RetrieveLoop, both P2P store loops, SyncLoop, DAIncluderLoop) run unmodified with their own tickers, sharing a DA double and P2P store doubles; exactly one thread runs between two environment calls and the explorer chooses who continues (delay bound 1 quick / 2 thorough); genesis time in the past and in the future, DA block time 1 and 3 block intervals; a stop request is explored at every 100 ms boundary. Oracles on every execution: C01 chain validity of the sequencer node, C02 the full node follows the producer, C06 DA contents are the committed items, C07 DA-included soundness and finalize order on both nodes, no loop reports a fatal error; after a stop every loop returns within one block interval of virtual time; four scenarios with the sync loop\'s input channel full and the sync loop gone.',
+      'NOT decided here: data races (plain memory accesses between two gates are atomic under the cooperative scheduler; no free-running -race pass is registered) and the fan-out/join of FullNode.Run in node/full.go (libp2p cannot run in a bubble; the loops are started by the harness exactly as Run starts them). Trusted: synctest, doubles; after the stop request scheduling is canonical.',
+      'DESIGN.md section 5 C13', 'explore+sched')
+
 NOT_YET = "check not built yet in this session (work in progress, see DESIGN.md section 10 for the order of work)"
 
 checks = []
